@@ -19,5 +19,9 @@ REGISTRY = {
                     "slot combinations (<=2 parameters + result, 3 hints x 4 docstring types) x 3 styles x 2 preferences x 2 warning settings and emits 22.6k scenarios; 12 real runs are judged by "
                     "C14_Trace on chosen types, per-function WARNING counts and byte-identity of the output under WARN vs IGNORE.",
             "ref": "DESIGN.md section 7 C14", "note": BASE_NOTE + " Known findings: Google-style result types (see KNOWN_FINDINGS.txt).", "technique": TECH},
+    "C20": {"text": "spec/TodoFlush.tla models the pending-marker set (BeginModule/Raise/Flush) and TLC checks exact attribution and no-leak for every sequence of three declaration shapes "
+                    "(functions, methods, attributes, classes; visible and skipped) under every raise order; the 5.5k triples are emitted, concretised into one package, run, and C20_Trace judges the marker "
+                    "set in front of each of 15k emitted declarations (scenario-side kinds from the scenario, shown kinds from the parsed declaration).",
+            "ref": "DESIGN.md section 7 C20", "note": BASE_NOTE + " TODO lines are mapped to marker kinds by keyword, not by exact wording.", "technique": TECH},
 }
 NOT_APPLICABLE = {}
